@@ -697,7 +697,66 @@ func c08Squeeze(s string) string {
 }
 
 // c08Observe runs one text through the real code and records the observables (if rec).
+var c08FileNo int
+
+// the same text read from a FILE (model.NewModelFromFile: config.NewConfig, the reader behind
+// NewEnforcer(path) and LoadModel) defines what the text defines: an error iff the string reader
+// reports one, and the same definitions.  Sampled (one text in three).
+func c08FromFile(c *Ctx, id, text string, res c08Result, force bool) {
+	c08FileNo++
+	if !force && (c08FileNo%3 != 0 || len(text) > 200000) {
+		return
+	}
+	f, err := os.CreateTemp("", "verif-c08-*.conf")
+	if err != nil {
+		return
+	}
+	name := f.Name()
+	defer os.Remove(name)
+	_, _ = f.WriteString(text)
+	_ = f.Close()
+	var m model.Model
+	var ferr error
+	func() {
+		defer func() {
+			if r := recover(); r != nil {
+				ferr = fmt.Errorf("panic: %v", r)
+				c.Direct(id, "model.NewModelFromFile panicked", Q(text))
+			}
+		}()
+		m, ferr = model.NewModelFromFile(name)
+	}()
+	if (ferr != nil) != res.modelErr {
+		c.Direct(id, fmt.Sprintf("the text read from a file gives error=%v, read from a string error=%v", ferr, res.modelErr), Q(text))
+		return
+	}
+	if ferr != nil {
+		return
+	}
+	var defs []string
+	for _, sec := range []string{"r", "p", "g", "e", "m"} {
+		var keys []string
+		for k := range m[sec] {
+			keys = append(keys, k)
+		}
+		sort.Slice(keys, func(i, j int) bool { return c08KeyLess(keys[i], keys[j]) })
+		for _, k := range keys {
+			a := m[sec][k]
+			defs = append(defs, fmt.Sprintf("%s.%s V=%s T=%s P=%s", sec, a.Key, Q(a.Value), rulesKey([][]string{a.Tokens}), rulesKey([][]string{a.ParamsTokens})))
+		}
+	}
+	if strings.Join(defs, "\n") != strings.Join(res.defs, "\n") {
+		c.Direct(id, "the text read from a file defines something else than the same text read from a string", fmt.Sprintf("file=%q string=%q text=%s", defs, res.defs, Q(text)))
+	}
+	c.Count("file-vs-string")
+}
+
 func c08Observe(c *Ctx, id, text string, probes [][2]string, rec bool) (res c08Result, panicked bool) {
+	defer func() {
+		if !panicked {
+			c08FromFile(c, id, text, res, false)
+		}
+	}()
 	obs := func(step, val string) {
 		if rec {
 			c.Obs(id, step, val)
@@ -862,6 +921,76 @@ var c08Atoms = []string{
 	"eval(p.sub_rule)", "r2.obj == p2.obj", "r12.x == p345.y", "xr.y == pr.z", "r_x == p_y", "r.dom == p.dom",
 	"domain == r.x[1]", "a.r.b == c.p.d", "(r.sub == p.sub || p.sub == '*')", "!(r.act == 'write')", "r.a.b.c == p.\\d",
 	"r.age >= 18 && r.age < 60", "p.x == 'k=v'", "keyGet(r.obj, p.obj) == 'x'", "r.", "p9.", ".r.x", "3r.x", "r..x",
+}
+
+// over-long lines that carry no definition (comment lines, blank lines of > 4096 / > 8192 bytes)
+// in front of, between and behind over-long definitions: the definitions are those of the text
+// without these lines.
+func c08LongSkips(c *Ctx) {
+	pad := func(n int) string { return strings.Repeat(" ", n) }
+	base := []string{"[request_definition]", "r = sub, obj, act", "[policy_definition]", "p = sub, obj, act", "[role_definition]", "g = _, _", "[policy_effect]", "e = some(where (p.eft == allow))", "[matchers]", "m = g(r.sub, p.sub) && r.obj == p.obj &&" + pad(5000) + "r.act == p.act", "m2 = r.sub == p.sub ||" + pad(9000) + "r.obj == p.obj"}
+	ref, rerr := model.NewModelFromString(strings.Join(base, "\n") + "\n")
+	if rerr != nil {
+		c.Direct("c08.longskip.ref", "reference text rejected", rerr.Error())
+		return
+	}
+	sig := func(m model.Model) string {
+		var out []string
+		for _, sec := range []string{"r", "p", "g", "e", "m"} {
+			var keys []string
+			for k := range m[sec] {
+				keys = append(keys, k)
+			}
+			sort.Strings(keys)
+			for _, k := range keys {
+				out = append(out, sec+"."+k+"="+c08Squeeze(m[sec][k].Value))
+			}
+		}
+		return strings.Join(out, ";")
+	}
+	skips := []string{"# " + strings.Repeat("x", 4200), "; " + strings.Repeat("y", 8300), pad(4100), "#" + pad(4090) + "z", "# short"}
+	n := 0
+	for _, sk1 := range skips {
+		for _, sk2 := range append([]string{""}, skips...) {
+			for at := 0; at <= len(base); at++ {
+				var lines []string
+				lines = append(lines, base[:at]...)
+				lines = append(lines, sk1)
+				if sk2 != "" {
+					lines = append(lines, "", sk2)
+				}
+				lines = append(lines, base[at:]...)
+				text := strings.Join(lines, "\n") + "\n"
+				m, err := model.NewModelFromString(text)
+				id := fmt.Sprintf("c08.longskip.%d", n)
+				n++
+				if err != nil {
+					c.Direct(id, "over-long comment / blank lines made the model text unreadable: "+err.Error(), fmt.Sprintf("skip lines of %d and %d bytes before line %d", len(sk1), len(sk2), at))
+					continue
+				}
+				if sig(m) != sig(ref) {
+					c.Direct(id, "over-long comment / blank lines changed the definitions", fmt.Sprintf("skip lines of %d and %d bytes before line %d: %s instead of %s", len(sk1), len(sk2), at, sig(m), sig(ref)))
+				}
+			}
+		}
+	}
+	c.Count(fmt.Sprintf("long-skip-lines=%d", n))
+}
+
+// a malformed line BEHIND the required sections (so that what precedes it is a complete model):
+// read from a string or from a file, the text is an error, never a silently truncated model.
+func c08BadTail(c *Ctx) {
+	head := "[request_definition]\nr = sub, obj, act\n[policy_definition]\np = sub, obj, act\n[policy_effect]\ne = some(where (p.eft == allow))\n[matchers]\nm = r.sub == p.sub && r.obj == p.obj\n"
+	tails := []string{"this line has no equals sign\n[role_definition]\ng = _, _\n", "&& r.act == p.act\nm2 = r.sub == p.sub\n", "[role_definition\ng = _, _\n", "[]\n", "m2 r.sub == p.sub\n[role_definition]\ng2 = _, _\n", "  stray  \n"}
+	for i, t := range tails {
+		id := fmt.Sprintf("c08.badtail.%d", i)
+		res, panicked := c08Observe(c, id, head+t, nil, false)
+		if panicked {
+			continue
+		}
+		c08FromFile(c, id, head+t, res, true)
+		c.Count("bad-tail")
+	}
 }
 
 func (g *c08Gen) pick(ss []string) string { return ss[g.c.Rng.Intn(len(ss))] }
@@ -1085,6 +1214,8 @@ const c08Examples = "/repo/examples"
 
 func init() {
 	register("C08", func(c *Ctx) {
+		c08LongSkips(c)
+		c08BadTail(c)
 		g := &c08Gen{c: c, longEvery: 3}
 		nExact, nLoose, nGen, nHostile := 32, 6, 50, 5000
 		if c.Thorough() {
